@@ -366,7 +366,8 @@ func deadlineCases(fn *ssa.Function, v ssa.Value, p an.Path, at *ssa.BasicBlock,
 			conds = append(conds, pathOf(iff.Cond))
 		}
 	}
-	if vp := pathOf(v); strings.Contains(vp, "call:context.WithTimeout(") && strings.Contains(vp, ".SendTimeout") {
+	// (WithTimeoutCause: the same deadline, with a reason attached)
+	if vp := pathOf(v); (strings.Contains(vp, "call:context.WithTimeout(") || strings.Contains(vp, "call:context.WithTimeoutCause(")) && strings.Contains(vp, ".SendTimeout") {
 		return []deadlineCase{{timed: true, conds: conds}}
 	}
 	if ex, ok := v.(*ssa.Extract); ok && ex.Index == 0 && depth < 2 && in == nil {
